@@ -243,7 +243,9 @@ def check_c15(ctx):
         if good:
             j = 0
             for x, y in zip(a, b):
-                if x.startswith('E('):
+                if x.startswith('E(') and not y.startswith('E('):
+                    good = False          # an event of the original became an error (or something else) in the decorated log
+                elif x.startswith('E('):
                     fx, fy = item_source_fields(x), item_source_fields(y)
                     pad = pads[j].hex()
                     j += 1
@@ -399,9 +401,14 @@ C18_THEOREMS = ['BinlogVerif.C18.c18_perm_stable', 'BinlogVerif.C18.c18_unsorted
 def c18_log(rng):
     out = [G.source_payload(1, 128), G.source_payload(2, 512)]
     clocks = [rng.choice([1, 2, 3, 5, 5, 5, 8, rng.randrange(20)]) for _ in range(rng.choice([0, 1, 3, 8, 20]))]
+    if rng.random() < 0.6:
+        out.insert(0, G.cs_payload(rng.randrange(100), 10 ** 9, rng.randrange(1 << 40), 0, b'UTC'))
     for c in clocks:
         if rng.random() < 0.2:
             out.append(G.wp_payload(rng.randrange(4), G.rand_bytes(rng, 3, b'ab'), 0))
+        if rng.random() < 0.15:
+            # a further clock sync in the middle of the log (setClockSync while running, concatenated logs): same or different
+            out.append(G.cs_payload(rng.randrange(100), rng.choice([10 ** 9, 10 ** 9, 1000]), rng.randrange(1 << 40), rng.choice([0, 3600]), b'CET'))
         if rng.random() < 0.1:
             out.append(G.source_payload(rng.choice([1, 2]), rng.choice(G.SEVERITIES), line=rng.randrange(50)))
         out.append(G.event_payload(rng.choice([1, 2]), c, G.rand_bytes(rng, 3)))
@@ -454,7 +461,7 @@ def check_c18(ctx):
     finish_proof(ctx, ok, bool(prop_fail))
     ctx.coverage.update({'evaluations': len(lines), 'distinct_nontrivial': len(nontrivial),
                          'traces_validated_against_impl': len(lines) - len(mism),
-                         'rule': 'generated logs with out-of-order clocks, many ties, re-definitions and writer changes, a quarter '
+                         'rule': 'generated logs with out-of-order clocks, many ties, re-definitions, writer changes and further clock syncs in the middle, a quarter '
                                  'each ending in garbage / truncated / an invalid entry; real printEvents vs printSortedEvents; '
                                  'non-trivial = sorting changes the line order; distinct by input line'})
     ctx.samples = [lines[1][:300], lines[3][:300]]
